@@ -323,13 +323,13 @@ func (e *Engine) arith(op string, a, b string, typ types.Type) string {
 		if bv, ok := litValue(b); ok {
 			return e.wrapUnsigned(fmt.Sprintf("(* %s %s)", a, pow2(int(bv.Int64())).String()), typ)
 		}
-		e.S.DefineFun("pow2i", "(declare-fun pow2i (Int) Int)")
+		e.S.DefineFun("pow2i", pow2iDef())
 		return e.wrapUnsigned(fmt.Sprintf("(* %s (pow2i %s))", a, b), typ)
 	case ">>":
 		if bv, ok := litValue(b); ok {
 			return fmt.Sprintf("(div %s %s)", a, pow2(int(bv.Int64())).String())
 		}
-		e.S.DefineFun("pow2i", "(declare-fun pow2i (Int) Int)")
+		e.S.DefineFun("pow2i", pow2iDef())
 		return fmt.Sprintf("(div %s (pow2i %s))", a, b)
 	case "&":
 		// x & (2^k-1) == x mod 2^k
